@@ -133,11 +133,12 @@ type fakeServer struct {
 	onExec  func(l *logged)    // observer, called under mu
 	onInval func(i inval)      // observer, called before delivery (no lock held)
 	failCmd func(cmd []string) string // fault injection: non-empty = error text to answer instead of executing
+	owner   map[int][]string          // connection id -> the rueidisid: keys it SET (liveness keys; concurrent keepalives may create a spare one)
 }
 
 func newFakeServer(clock func() int64) *fakeServer {
 	return &fakeServer{clock: clock, keys: map[string]*fval{}, loaded: map[string]bool{}, hits: map[string]int{},
-		track: map[string]map[*fakeClient]bool{}}
+		track: map[string]map[*fakeClient]bool{}, owner: map[int][]string{}}
 }
 
 func (f *fakeServer) takeLog() []logged {
@@ -694,6 +695,15 @@ func (f *fakeServer) exec1(cl *fakeClient, ctx context.Context, cmd []string, ca
 			return record("set", cmd[1:2], cmd[2:], rErr("WRONGTYPE Operation against a key holding the wrong kind of value"))
 		}
 		set := f.setString(cmd[1], cmd[2], nx, exp, now, cl)
+		if cl != nil && strings.HasPrefix(cmd[1], "rueidisid:") {
+			dup := false
+			for _, k := range f.owner[cl.id] {
+				dup = dup || k == cmd[1]
+			}
+			if !dup {
+				f.owner[cl.id] = append(f.owner[cl.id], cmd[1])
+			}
+		}
 		switch {
 		case get && have:
 			return record("set", cmd[1:2], cmd[2:], rStr(old))
